@@ -159,12 +159,22 @@ func (c *ctrl) entryList() []string {
 
 func build(g *Gr, out map[string]*scheduler.Stage) (*scheduler.ExecutionGraph, error) {
 	var ss []*scheduler.Stage
+	graphs := map[string]*scheduler.ExecutionGraph{}
 	for _, s := range g.Stages {
-		st := &scheduler.Stage{Name: s.Name, DependsOn: s.Deps}
-		if s.Nested != nil {
+		if s.Nested != nil && s.ReuseOf == "" {
 			ig, err := build(s.Nested, out)
 			if err != nil {
 				return nil, err
+			}
+			graphs[s.ID] = ig
+		}
+	}
+	for _, s := range g.Stages {
+		st := &scheduler.Stage{Name: s.Name, DependsOn: s.Deps}
+		if s.Nested != nil {
+			ig := graphs[s.ID]
+			if s.ReuseOf != "" {
+				ig = graphs[s.ReuseOf]
 			}
 			st.Pipeline = ig
 			st.AllowFailure = s.Allow
